@@ -477,14 +477,19 @@ def property_dependency_check(prop):
     if dep is None:
         return
 
+    # The dependency is another Property of the same Section.
     try:
-        dep_obj = prop.parent[dep]
+        dep_obj = prop.parent.properties[dep]
     except KeyError:
         msg = "Property refers to a non-existent dependency object"
         yield ValidationError(prop, msg, LABEL_WARNING, validation_id)
         return
 
-    if prop.dependency_value not in dep_obj.values[0]:
+    # Without a dependency value only the existence of the dependency is required.
+    if prop.dependency_value is None:
+        return
+
+    if str(prop.dependency_value) not in [str(val) for val in dep_obj.values]:
         msg = "Dependency-value is not equal to value of the property's dependency"
         yield ValidationError(prop, msg, LABEL_WARNING, validation_id)
 
